@@ -48,7 +48,8 @@
  *   dump <now> | <vis> <out> <syncing> <P>                    (every record on disk the production reader yields: ReplayLog to A from position 0)
  *   stop <now> | <newfile|-> <P>          (ApiListener::Stop via Deactivate; the process ends)
  *   crash <k> | <P>           (the process ends without Stop; only the first k bytes of current survive, -1: all)
- *   start <now> | <satRev> <topRev> <P>   (new process on the same directory; state attributes restored as the state file would)
+ *   start <now> | <satRev> <topRev> <P>   (new process on the same directory; state attributes restored by ConfigObject::RestoreObjects from the
+ *                                                   state file the previous process wrote with ConfigObject::DumpObjects)
  *   <P> = lposA,rposA,lposB,rposB, ... ,lposF,rposF
  *
  * Modes: gen --seed S --tier quick|thorough | ops FILE | part FILE --dir D | node FILE --dir D (internal)
@@ -585,9 +586,16 @@ static std::string StateLine(long long lastTs)
 	return o.str();
 }
 
-static void SaveState()
+static std::string StatePath() { return l_Dir + "/verif-icinga2.state"; }
+
+static void SaveState(bool processEnds)
 {
 	WriteFile(l_Dir + "/verif-state.txt", StateLine(Us(l_Listener->GetLogMessageTimestamp())) + "\n");
+	if (!processEnds) return;
+	/* what the NEXT process knows of the endpoints' positions and of log_message_timestamp travels the way production
+	 * does it: the real state file (ConfigObject::DumpObjects / RestoreObjects over the [state] attributes of endpoint.ti:23-24
+	 * and apilistener.ti:59), written when the process ends (`stop`, and `crash`: the state as of the crash) */
+	ConfigObject::DumpObjects(StatePath());
 }
 
 static JsonRpcConnection::Ptr MkConn(int p)
@@ -698,8 +706,11 @@ static void BootNode(const std::string& work, const std::string& dir, bool resum
 	}
 	ApplyIdentity();
 	if (resume) {
-		l_Listener->SetLogMessageTimestamp(Sec(lastTs));
-		for (int p = 0; p < kNP; p++) { l_Ep[p]->SetLocalLogPosition(Sec(pos[2 * p])); l_Ep[p]->SetRemoteLogPosition(Sec(pos[2 * p + 1])); }
+		/* production order (daemoncommand.cpp): objects registered and OnAllConfigLoaded, RestoreObjects, then activation.
+		 * Nothing is installed by hand: an attribute that is not (or no longer) a state attribute comes up as 0. */
+		(void)lastTs; (void)pos;
+		if (!Utility::PathExists(StatePath())) Die("no state file for a start line");
+		ConfigObject::RestoreObjects(StatePath());
 	}
 	l_Listener->PreActivate();
 	l_Listener->Activate();         /* ApiListener::Start(): OpenLogFile, timers */
@@ -1285,7 +1296,7 @@ static int NodeMain(const std::string& file, const std::string& work, const std:
 			RunOp(w, lines[i]);
 		}
 		if (w[0] == "stop" || w[0] == "crash") ended = true;
-		SaveState();
+		SaveState(ended);
 	}
 	fflush(stdout);
 	_exit(0);
